@@ -147,11 +147,16 @@ def run(ctx):
     ok, outs, failed = ctx.coq_build(["C15/PolyDefs.v", "Common/FloatOps.v"])
     if not ok:
         raise vlib.CheckError("model does not compile: %s" % failed)
-    c_out = fcorr.run_c(cbin, [c[0] for c in cases])
+    crashes = []
+    c_out = fcorr.run_c(cbin, [c[0] for c in cases], crashes=crashes)
+    for idx, msg in crashes:
+        ctx.report("%s/sanitizer" % cases[idx][2][0], "the C aborted on this case: " + msg,
+                   {"case": cases[idx][0], "inputs": [repr(x) for x in cases[idx][2][1:]], "stderr": msg})
+    crashed = set(i for i, _ in crashes)
     m_out = fcorr.run_model(ctx, "c15cases", ["C15.PolyDefs"], [c[1] for c in cases])
     nd = 0
     for i, (cl, ce, meta) in enumerate(cases):
-        if c_out[i] != m_out[i]:
+        if i not in crashed and c_out[i] != m_out[i]:
             nd += 1
             if nd <= 3:
                 ctx.tie_broken("correspondence C15 (bit-exact binary64): case %r: C %s, model %s" % (cl.split()[0] + " #%d" % i, c_out[i], m_out[i]))
@@ -159,6 +164,8 @@ def run(ctx):
     kinds = {}
     for i, (cl, ce, meta) in enumerate(cases):
         kinds[meta[0]] = kinds.get(meta[0], 0) + 1
+        if i in crashed:
+            continue
         why = oracle(meta, [fcorr.fval(b) for b in c_out[i]])
         if why and nrep < 4:
             nrep += 1
